@@ -68,14 +68,14 @@ CHECKS = {
         ref="DESIGN.md §3 C11",
     ),
     "C12": dict(
-        technique="static analysis: source-to-sympy derivative identity for the chain-rule coefficient, open-term comparison of the finite-difference and Grueneisen formulas with the documented ones, whole-class attribute resolution for objects constructed from repository classes, path enumeration of the q-point loops for band-order consistency of all per-band results",
+        technique="static analysis: source-to-sympy derivative identity for the chain-rule coefficient, open-term comparison of the finite-difference and Grueneisen formulas with the documented ones, element-wise symbolic execution of the compiled derivative kernel compared with the sympy derivative of the forward kernel's closed form (FC part with image selection, NAC part), whole-class attribute resolution for objects constructed from repository classes, path enumeration of the q-point loops for band-order consistency of all per-band results",
         level="other",
         text="Decides the coefficient clauses: the factor applied to <e|dD|e> is d(factor sqrt l)/dl, the numerical derivative is the symmetric difference over 2|dq|, gamma = -<e|dD|e>/(dV/V)/(2 l) with dD = D(V+) - D(V-) and the strain from the three supplied cells; that every documented access path (attribute/method on a locally constructed repository object) exists, and that eigenvalues, eigenvectors, <e|dD|e> and group velocities of one q-point are reordered by the same band connection. Does not decide that dD equals the derivative of D (loop nests), degeneracy handling or mesh agreement.",
         note="Trusted: CPython ast, sympy. Two known findings: phonopy-gruneisen calls two methods PhonopyGruneisen no longer has.",
         ref="DESIGN.md §3 C12",
     ),
     "C13": dict(
-        technique="static analysis over the clang-14 JSON AST of c/*.c and the nanobind glue plus Python ast: cross-language ABI table (dtype/contiguity/arity by backward def-use with call context), swapped-argument detector, OpenMP data-sharing and mixed-radix subscript-injectivity analysis with callee write summaries, preprocessor-block and serial/parallel twin comparison, symbolic bounds of every write against malloc sizes / fixed extents / Python allocation shapes, constant and sibling-kernel agreement",
+        technique="static analysis over the clang-14 JSON AST of c/*.c and the nanobind glue plus Python ast: cross-language ABI table (dtype/contiguity/arity by backward def-use with call context), swapped-argument detector, OpenMP data-sharing and mixed-radix subscript-injectivity analysis with callee write summaries, preprocessor-block and serial/parallel twin comparison, symbolic bounds of every write against malloc sizes / fixed extents / Python allocation shapes, perfect mixed-radix (dense row-major) form of every affine subscript, symbolic differentiation of the derivative kernel's helpers, constant and sibling-kernel agreement",
         level="other",
         text="Decides the shape-of-code failure modes the property names: a kernel reinterpreting a buffer (dtype, layout, argument order, axis), a data race or order-dependent shared accumulation in any of the 11 parallel regions (for every schedule and thread count), code that exists only in the OpenMP build, a write past a temporary, a fixed-extent array or the array Python allocated, leaks, and diverging cross-language constants. Does not decide that loop-nest kernels compute the reference values (that is decided for the closed-form kernels under C10/C11 only).",
         note="Trusted: clang-14 JSON AST, the 30-line nanobind/omp.h stubs under /verif/stubs, sympy polynomial arithmetic. Assumptions (value ranges / injectivity of integer index maps supplied by the Python layer) are printed in the evidence. Unresolved Python arguments are listed as unknown, never reported.",
